@@ -135,13 +135,14 @@ pub struct SchedReader<'a> {
 	env: EnvRef,
 	policy: ReadPolicy,
 	failed: bool,
+	eof_answered: bool,
 	/// called on every read() with the current source offset (before the read)
 	pub on_read: Option<Box<dyn FnMut(usize) + 'a>>,
 }
 
 impl<'a> SchedReader<'a> {
 	pub fn new(data: &'a [u8], env: &EnvRef, policy: ReadPolicy) -> Self {
-		SchedReader { data, pos: 0, env: env.clone(), policy, failed: false, on_read: None }
+		SchedReader { data, pos: 0, env: env.clone(), policy, failed: false, eof_answered: false, on_read: None }
 	}
 
 	fn sizes(&self, max: usize) -> Vec<usize> {
@@ -199,8 +200,10 @@ impl Read for SchedReader<'_> {
 		let max = buf.len().min(remaining);
 		let mut env = self.env.borrow_mut();
 		if max == 0 {
-			// EOF answer; with faults on, the alternative is to fail instead.
-			if self.policy.faults {
+			// EOF answer; with faults on, the alternative is to fail instead — but only for the
+			// first EOF read: the fault model is "fails, and keeps failing, once k bytes were
+			// delivered", so a reader that has already answered EOF stays at EOF.
+			if self.policy.faults && !self.eof_answered {
 				let c = env.choose(K_READ, 2);
 				if c == 1 {
 					self.failed = true;
@@ -212,6 +215,7 @@ impl Read for SchedReader<'_> {
 				}
 			}
 			env.log.push((K_READ, 0));
+			self.eof_answered = true;
 			return Ok(0);
 		}
 		let sizes = self.sizes(max);
